@@ -53,6 +53,7 @@ structure FileReport where
   freePages : List Nat := []
   pagesReencoded : Nat := 0
   treeReach : List Nat := []
+  runs : List (Nat × Nat) := []
 
 mutual
 partial def treePages : Tree Bytes LeafVal → List Nat
@@ -118,7 +119,8 @@ def checkBytes (L : Layout) (order : List MetaField) (ba : ByteArray) (pagesize 
       else
       { ok := true, msg := "ok", dump := dumpView sum.root true, numPages := mt.numPages, txId := mt.txId,
         free := sum.free.length, reach := sum.reach.length, fileSize := ba.size,
-        reachPages := sum.reach ++ sum.freelistRun, freePages := sum.free, view := some sum.root, pagesReencoded := pages.length, treeReach := sum.reach }
+        reachPages := sum.reach ++ sum.freelistRun, freePages := sum.free, view := some sum.root, pagesReencoded := pages.length, treeReach := sum.reach,
+        runs := sum.root.runs pg ++ [(mt.freelistPage, sum.freelistRun.length)] }
     | .error e =>
       let detail := match e with
         | .notATree p => match decodePage L s pagesize p with
